@@ -136,6 +136,51 @@ everything the encoder emits for the sequence (put* then flush) -/
 def encode (w : Nat) (vals : List Nat) : List UInt8 :=
   (flush (vals.foldl put (Enc.init w))).out
 
+/-! ### Encoder histories: any sequence of `put` / `put_repeat` / `flush` calls -/
+
+/-- one call on a `carquet_rle_encoder_t` -/
+inductive EncOp
+  | put (v : Nat)
+  | rep (v n : Nat)
+  | flush
+  deriving DecidableEq, Repr
+
+/-- the encoder after a history of calls -/
+def runEncOps (e : Enc) : List EncOp → Enc
+  | [] => e
+  | .put v :: ops => runEncOps (put e v) ops
+  | .rep v n :: ops => runEncOps (putRepeat e v n) ops
+  | .flush :: ops => runEncOps (flush e) ops
+
+/-- number of zero values `carquet_rle_encoder_flush` adds to the stream in state `e`: a pending
+run of 1..7 values goes to the group buffer and the group is padded to 8 with zeros; a run of 8 or
+more completes the group from the run (F1) and needs none; with nothing pending nothing is written -/
+def flushPad (e : Enc) : Nat :=
+  if 0 < e.rep ∧ e.rep < 8 then (8 - (e.buf.length + e.rep) % 8) % 8 else 0
+
+/-- the padding counts of the flushes of a history, in order -/
+def flushPads : Enc → List EncOp → List Nat
+  | _, [] => []
+  | e, .put v :: ops => flushPads (put e v) ops
+  | e, .rep v n :: ops => flushPads (putRepeat e v n) ops
+  | e, .flush :: ops => flushPad e :: flushPads (flush e) ops
+
+/-- the values a history puts, in order -/
+def histValues : List EncOp → List Nat
+  | [] => []
+  | .put v :: ops => v :: histValues ops
+  | .rep v n :: ops => List.replicate n v ++ histValues ops
+  | .flush :: ops => histValues ops
+
+/-- what a stream written by a history denotes, given the number of padding zeros at each flush:
+the values put, in order, with `pads[i]` zeros after the values that precede the i-th flush -/
+def denoteWith : List Nat → List EncOp → List Nat
+  | _, [] => []
+  | ps, .put v :: ops => v :: denoteWith ps ops
+  | ps, .rep v n :: ops => List.replicate n v ++ denoteWith ps ops
+  | k :: ps, .flush :: ops => List.replicate k 0 ++ denoteWith ps ops
+  | [], .flush :: ops => denoteWith [] ops
+
 /-- `(uint32_t)input[i]` for `int16_t input[i]` -/
 def u32OfI16 (x : Int) : Nat := (x % 4294967296).toNat
 
